@@ -113,6 +113,17 @@ func c15Run(src []byte) []c15Obs {
 					o.Print, o.Msg = "panic", msg
 				}
 			}
+			// ... with the object graph restored as well (Restorer.Extras)
+			if o.Print != "panic" {
+				if msg := guard(func() {
+					r := decorator.NewRestorer()
+					r.Extras = true
+					var b bytes.Buffer
+					r.Fprint(&b, f)
+				}); msg != "" {
+					o.Print, o.Msg = "panic", "restorer with Extras: "+msg
+				}
+			}
 			// ... and through a Restorer that shares a file set with other files (the decorator's, in practice)
 			if o.Print != "panic" {
 				if msg := guard(func() {
